@@ -157,6 +157,17 @@ let optarg f = function A "-" -> None | x -> Some (f x)
 
 let dispatch (name : string) (args : sx list) : string =
   match name, args with
+  (* ---- C14 ---- *)
+  | "msg_verify", [net; addr; sg; msg] ->
+      let inv a = Model.modpow a (sub_big_int cn (big_int_of_int 2)) cn in
+      let addr_of c q = (match Model.pub_to_hash160 Model.sha256 c q with
+        | None -> [] | Some h -> (match Model.address_to_string Model.sha256 Model.P2PKH (str_of net) h with Some s -> s | None -> [])) in
+      (match Model.verify_message Model.sha256 cp cn ec_add ec_g inv sqrts addr_of (bytes_of addr) (bytes_of sg) (bytes_of msg) with
+       | Some true -> "1" | _ -> "0")
+  | "msg_recover", [msg; sg] ->
+      let inv a = Model.modpow a (sub_big_int cn (big_int_of_int 2)) cn in
+      (match Model.recover_pubkey Model.sha256 cp cn ec_add ec_g inv sqrts (bytes_of msg) (bytes_of sg) with
+       | Some (Some q) -> opt hex_of (Model.pub_to_bytes false q) | _ -> "ERR")
   (* ---- C13: the store model: build an object graph with fresh locations, copy it, check separation ---- *)
   | "heap_copy", [nin; nout; nwit] ->
       let n x = int_of_big_int (z_of x) in
